@@ -52,8 +52,22 @@ def classify(exc):
 # --------------------------------------------------------------------------
 # solver sessions
 def job_solver(job):
+    import logging
     import tad
     pydescs = [games.to_python(g) for g in job["descs"]]
+    if job.get("numtypes"):
+        # the same numbers in other legal Python types: rewards as floats, probability one as the int 1
+        for d in pydescs:
+            d["rewards"][:] = [float(r) for r in d["rewards"]]
+            for row, pl in zip(d["transition_list"], d["players"]):
+                if pl == "Probabilistic":
+                    row[:] = [(1 if p == 1.0 else p, t) for p, t in row]
+    # a log level of DEBUG switches on code that normally never runs (the worker is long-lived:
+    # the level is set for every job)
+    root = logging.getLogger()
+    if not root.handlers:
+        root.addHandler(logging.NullHandler())
+    root.setLevel(logging.DEBUG if job.get("debuglog") else logging.WARNING)
     objs = {}
 
     def sink(event, fields):
